@@ -1,0 +1,63 @@
+// Copyright 2020-2025 Buf Technologies, Inc.
+//
+// Licensed under the Apache License, Version 2.0 (the "License");
+// you may not use this file except in compliance with the License.
+// You may obtain a copy of the License at
+//
+//      http://www.apache.org/licenses/LICENSE-2.0
+//
+// Unless required by applicable law or agreed to in writing, software
+// distributed under the License is distributed on an "AS IS" BASIS,
+// WITHOUT WARRANTIES OR CONDITIONS OF ANY KIND, either express or implied.
+// See the License for the specific language governing permissions and
+// limitations under the License.
+
+//go:build verif
+
+package export
+
+// Contracts for the gocv verifier (see /verif/DESIGN.md). Comment-only. (author ca-r4h)
+//
+// C15 for `buf export`: every failing write of the export (creating the output directory, the Put / Write / Close of every
+// exported file, the Close of the source file) reaches the exit status (write-failure-reported; closure 0 = the per-file job
+// of the --exclude-imports walk, loop 0 = the per-image-file loop).
+// WHAT is exported (ghost.rh_export*: /verif/specs/R4h.spec; the controller calls are uncontracted and havoc the modelled heap,
+// so the flag values and the image / buckets are captured by ghost code where run reads them):
+//   - output-dir-created-first / only-into-output-bucket: nothing is put before os.MkdirAll(--output), and every put goes into
+//     the one bucket opened on --output;
+//   - without --exclude-imports: only-image-files-exported (every put path is the path of the workspace file of some image file),
+//     every-supplied-image-file-exported (each image file the workspace supplies is exported - the loop visits each image file
+//     once), only-builtin-wkt-skipped (an image file the workspace does not supply is skipped only if it is a built-in
+//     well-known type AND the workspace answered fs.ErrNotExist; anything else is an error), nothing-to-export-is-an-error;
+//   - with --exclude-imports: closure 0 exports each walked target file at its own path, once per visit.
+// Path collisions between two modules: run itself never overwrites silently - it exports one object per image file / per
+// walked file info; two modules providing the same path is rejected upstream (image build: duplicate-path error of the
+// module read bucket; walk: multiProtoFileModuleReadBucket.WalkFileInfos returns an error at the second occurrence, after
+// the first copy has been exported - the command then fails, the error is not swallowed: file-write-failure-reported /
+// the walk error is returned).
+//@ func run(ctx, container, flags) (retErr)
+//@   property C15
+//@   modifies heap, ghost.fail, ghost.wfail, ghost.sinkPaths, ghost.sinkBuckets, ghost.lastPutOptions, ghost.j_osWrite, ghost.j_osStat, ghost.d2_follow, ghost.v_osRoots, ghost.rh_exportImage, ghost.rh_exportSource, ghost.rh_exportTo, ghost.rh_exportExcl, ghost.rh_exportOut
+//@   requires !ghost.wfail
+//@   ghost after "image, err := controller.GetImageForWorkspace(" rh_exportImage := image
+//@   ghost before "if err := os.MkdirAll(flags.Output" rh_exportOut := flags.Output
+//@   ghost before "if flags.ExcludeImports {" rh_exportExcl := flags.ExcludeImports
+//@   ghost after "moduleReadBucket := bufmodule.ModuleSetToModuleReadBucketWithOnlyProtoFiles(" rh_exportSource := moduleReadBucket
+//@   ghost after "readWriteBucket, err := storageos.NewProvider(" rh_exportTo := readWriteBucket
+//@   ensures write-failure-reported: ghost.wfail ==> retErr != nil
+//@   ensures output-dir-created-first: ghost.sinkPaths != old(ghost.sinkPaths) ==> ghost.rh_exportOut in ghost.j_osWrite
+//@   ensures only-into-output-bucket: forall b ref :: b in ghost.sinkBuckets && !(b in old(ghost.sinkBuckets)) ==> b == ghost.rh_exportTo
+//@   ensures only-image-files-exported: !ghost.rh_exportExcl ==> (forall q string :: q in ghost.sinkPaths && !(q in old(ghost.sinkPaths)) ==> (exists j int :: 0 <= j && j < len(ghost.rh_exportImage.Files()) && q == first(ghost.rh_exportSource.GetFile(ctx, ghost.rh_exportImage.Files()[j].Path())).Path()))
+//@   ensures every-supplied-image-file-exported: !ghost.rh_exportExcl && retErr == nil ==> (forall j int :: 0 <= j && j < len(ghost.rh_exportImage.Files()) && second(ghost.rh_exportSource.GetFile(ctx, ghost.rh_exportImage.Files()[j].Path())) == nil ==> first(ghost.rh_exportSource.GetFile(ctx, ghost.rh_exportImage.Files()[j].Path())).Path() in ghost.sinkPaths)
+//@   ensures only-builtin-wkt-skipped: !ghost.rh_exportExcl && retErr == nil ==> (forall j int :: 0 <= j && j < len(ghost.rh_exportImage.Files()) && second(ghost.rh_exportSource.GetFile(ctx, ghost.rh_exportImage.Files()[j].Path())) != nil ==> datawkt.Exists(ghost.rh_exportImage.Files()[j].Path()) && errors.Is(second(ghost.rh_exportSource.GetFile(ctx, ghost.rh_exportImage.Files()[j].Path())), fs.ErrNotExist))
+//@   ensures nothing-to-export-is-an-error: !ghost.rh_exportExcl && retErr == nil ==> len(ghost.rh_exportImage.Files()) > 0
+//@   closure 0 ensures file-write-failure-reported: ghost.wfail && !old(ghost.wfail) ==> err != nil
+//@   closure 0 ensures walked-file-exported-at-its-path: err == nil ==> ghost.sinkPaths == add(old(ghost.sinkPaths), first(moduleReadBucket.GetFile(ctx, fileInfo.Path())).Path()) && ghost.sinkBuckets == add(old(ghost.sinkBuckets), readWriteBucket)
+//@   closure 0 invariant !ghost.wfail
+//@   closure 0 invariant forall b ref :: b in ghost.sinkBuckets && !(b in old(ghost.sinkBuckets)) ==> b == readWriteBucket
+//@   loop 0 invariant !ghost.wfail
+//@   loop 0 invariant forall b ref :: b in ghost.sinkBuckets && !(b in old(ghost.sinkBuckets)) ==> b == readWriteBucket
+//@   loop 0 invariant forall q string :: q in ghost.sinkPaths && !(q in old(ghost.sinkPaths)) ==> (exists j int :: 0 <= j && j < $i && q == first(moduleReadBucket.GetFile(ctx, image.Files()[j].Path())).Path())
+//@   loop 0 invariant forall j int :: 0 <= j && j < $i ==> (second(moduleReadBucket.GetFile(ctx, image.Files()[j].Path())) == nil ==> first(moduleReadBucket.GetFile(ctx, image.Files()[j].Path())).Path() in ghost.sinkPaths) && (second(moduleReadBucket.GetFile(ctx, image.Files()[j].Path())) != nil ==> datawkt.Exists(image.Files()[j].Path()) && errors.Is(second(moduleReadBucket.GetFile(ctx, image.Files()[j].Path())), fs.ErrNotExist))
+//@   canary ensures retErr != nil
+//@   canary ensures retErr == nil
